@@ -16,7 +16,7 @@ is decided exactly by evaluating both sides over all assignments of the atoms.
 """
 import itertools
 
-from lib import tt, traverse, shape
+from lib import tt, traverse, shape, protocol, cfg
 from lib.facts import callee
 from lib.rulelib import AtomOracle, get_fn, short, walk, std_model
 
@@ -403,6 +403,33 @@ def traversal(chk, facts):
             traverse.check(chk, rule, facts, g, EXPRKIND, "ast::expr::ExprKind", ("ast::expr::Expr<",), sink, only_variants=variants, floor=fl, name=nm)
 
 
+def mode_monotone(chk, facts):
+    """Strict mode only ever adds requirements: on the `not strict` edge of every is_strict() test in the typechecker no
+    error is recorded and no failure answer is produced that the strict edge would not also produce (so every policy accepted
+    in strict mode is accepted in permissive mode as far as these branches go)."""
+    rule = "C03.MODE"
+    n = 0
+    STRICTER = ("::enforce_strict_equality", "TypecheckAnswer::<'a>::fail", "TypecheckAnswer::fail", "ValidationError::empty_set_forbidden", "ValidationError::non_lit_ext_constructor")
+    for name in facts.unit_fns("cedar_policy_core.lib"):
+        gen, kind, root, ti, file, line = facts.fns.meta(name)
+        if gen or not file.endswith("validator/typecheck.rs"):
+            continue
+        f = facts.fns[name]
+        for b, t in f.calls():
+            if not callee(t).endswith("ValidationMode::is_strict"):
+                continue
+            for sb, m in protocol.bool_edges(f, b):
+                excl_false = cfg.edge_region(f, sb, m[False])
+                excl_true = cfg.edge_region(f, sb, m[True])
+                bad = sorted({short(callee(tt_)).split("::")[-1] for bb in excl_false for tt_ in [f.blocks[bb]["t"]] if tt_[0] == "call" and callee(tt_).endswith(STRICTER)})
+                pushes = [bb for bb in excl_false if f.blocks[bb]["t"][0] == "call" and callee(f.blocks[bb]["t"]).endswith("::push") and "ValidationError" in f.locals[f.blocks[bb]["t"][2][1][1][0]] if len(f.blocks[bb]["t"][2]) > 1 and f.blocks[bb]["t"][2][1][0] in ("c", "m")]
+                n += 1
+                chk.ob(rule, "%s@L%s" % (short(name).split("::")[-1][:40], t[1].get("l")), not bad and not pushes,
+                       "is_strict() at L%s: the permissive edge %s" % (t[1].get("l"), "adds no requirement" if not bad and not pushes else "records errors / fails (%s) that strict mode does not: strict would accept what permissive rejects" % (bad or "push")),
+                       where=f.where(t[1].get("l")), fn=name, key="%s:%s:%s" % (rule, name, ",".join(bad)))
+    chk.floor(rule, "is_strict() tests in the typechecker", n, 5)
+
+
 def run(chk, facts, tier):
     facts.load_crate("cedar_policy_core.lib")
     chk.explanation = (
@@ -421,6 +448,7 @@ def run(chk, facts, tier):
     capability_flow(chk, facts)
     optional_guard(chk, facts)
     traversal(chk, facts)
+    mode_monotone(chk, facts)
     # the soundness statement quantifies over requests the library's own request validation accepts: the record
     # typechecker behind it must reject undeclared / missing attributes (shared with C11)
     from rules import c11_record
